@@ -588,6 +588,7 @@ class loader( reader ):
         self._n			= 0			#   and line we're currently parsing
         self._ts		= None			# Last received timestamp; if None, open will use advancing historical time
         self._strict		= False			#   True after opening a new file, goes False when _ts increases
+        self._fresh		= False			#   True after opening a new file, 'til its first record is seen
         self.values		= {}			# Historical values at historical timestamp
         if values:
             # Some default values are provided; initialize our values to them, with a 0.0 timestamp
@@ -711,6 +712,7 @@ class loader( reader ):
                     self._i	= self.open( target=self._ts, after=after, lookahead=self.lookahead,
                                              strict=self._strict, encoding=encoding )
                     self._strict= True # remains until we see increasing timestamps
+                    self._fresh	= True # remains until we see the newly opened file's first record
 
                 assert self.state in (self.INITIAL, self.SWITCHING, self.STREAMING, self.EXHAUSTED, self.AWAITING)
                 # We have an open generator; process records.  We also still know if it was our
@@ -773,10 +775,11 @@ class loader( reader ):
                         # same file next time!  Therefore, we have to see ts > self._ts and
                         # self.state isn't INITIAL/SWITCHING (eg. we've already seen records from
                         # the file )
-                        if self.state not in (self.INITIAL, self.SWITCHING) and (
+                        if self.state not in (self.INITIAL, self.SWITCHING) and not self._fresh and (
                                 self._ts is None or ts > self._ts ):
                             log.debug( "%s Playback releasing strict for next open: %s > %s", self, ts, self._ts )
                             self._strict	= False
+                    self._fresh		= False
 
                     if self.state in (self.INITIAL, self.SWITCHING, self.AWAITING):
                         self.state	= self.STREAMING
